@@ -71,13 +71,10 @@ theorem linreg_model_privloss (p : LinParams ℝ) (hε : 0 ≤ p.eps) (hd : 0 < 
     let t' := (linPlan p).run (pre ++ r' :: post) outs
     t.calls = t'.calls ∧ dispOk t.calls t.inputs t'.inputs = true ∧ privLoss t.calls t.inputs t'.inputs ≤ p.eps := by
   have hl := linreg_privloss p hε hd ht hb hby h1d pre post r r' hn
-  have hp : ((linPlan p).run (pre ++ r :: post) outs).probes = ((linPlan p).run (pre ++ r' :: post) outs).probes :=
-    -- equal calls and releases are not needed for this: a run of equal plans on equal outputs has equal probe lists
-    -- whenever `lossLe_run` goes through; we get it from the calculus itself by induction inside `lossLe_run`'s
-    -- hypothesis, so we prove it directly: the plan has no probe (see C06), both lists are empty
-    by
-      have h := linPlan_probeFree p
-      rw [Plan.probeFree_probes _ h, Plan.probeFree_probes _ h]
+  -- the plan has no probe (see C06): both probe lists are empty
+  have hp : ((linPlan p).run (pre ++ r :: post) outs).probes = ((linPlan p).run (pre ++ r' :: post) outs).probes := by
+    have h := linPlan_probeFree p
+    rw [Plan.probeFree_probes _ h, Plan.probeFree_probes _ h]
   exact lossLe_run _ _ _ _ hl outs hp hfull
 
 /-- StandardScaler (ε/2 over d column means + ε/2 over d column variances); the list-level variance sensitivity is
